@@ -115,6 +115,9 @@ ALPHABET = {
     "create_trial": ("create_trial", "s", None),
     "create_waiting": ("create_trial", "s", "bare_wait"),
     "create_in_unknown": ("create_trial", "never_s", None),  # rejected: unknown study
+    # trial in the second study (rejected until it exists): the only way to allocate a trial id
+    # after the first study - and its trials - were deleted
+    "create_trial_s2": ("create_trial", "s2", None),
     "param_f": ("set_param", "t", "p", "f", 0.5),
     "param_i": ("set_param", "t2", "p", "i", 3.0),  # rejected when p:float exists in the study
     "attr": ("user_attr", "t", "k", 1),
@@ -304,7 +307,7 @@ def run(tier: str, replay: str | None = None) -> int:
     ]
     return ctx.finish(
         exhaustive=True,
-        rule="every sequence of d calls (d=3 quick / 4 thorough, after a 2-record seed) by 2 workers over a 14-op alphabet incl. rejected calls; every sequence of 2/3 calls with one foreign append landing between a call's append and read; per log: all 2^(n-1) batch splits and all snapshot positions x workers",
+        rule="every sequence of d calls (d=3 quick / 4 thorough, after a 2-record seed) by 2 workers over a 16-op alphabet incl. rejected calls; every sequence of 2/3 calls with one foreign append landing between a call's append and read; per log: all 2^(n-1) batch splits and all snapshot positions x workers",
     )
 
 
